@@ -385,11 +385,11 @@ Section RevertNew.
 
   Lemma revert_store_new : revert_new (store_new s d) d = Some s.
   Proof.
-    rewrite store_new_eq by auto. cbv zeta. unfold revert_new.
+    rewrite store_new_eq by auto. cbv zeta. unfold revert_new, revert_new_with.
     cbn [s_next s_class s_nonce s_dh s_store s_decl s_lstore s_lnonce s_lclass].
     destruct (s_next s + 1 =? 0) eqn:E; [lia|].
     replace (s_next s + 1 - 1) with (s_next s) by lia.
-    rewrite rm_decl_upd; [| apply (v_nodup_decl _ _ Vd) | apply (i_s5 _ I) | apply (i_decl _ I)].
+    rewrite rm_classes_upd; [| apply (v_nodup_decl _ _ Vd) | apply (i_s5 _ I) | apply (i_decl _ I) | apply (vs_deliv _ _ V)].
     rewrite (sys_new_after s d I V). cbn [foldd fold_right].
     fold n. fold dx. fold lstore'. fold lnonce'. fold lclass'.
     rewrite (rg_store_undo s d I (fun a sl => rev_val_new lstore' [a; sl] n)) by (intros; apply rn_rev_store).
